@@ -554,6 +554,36 @@ fn c10_scenario<V: VirtualFileSystem>(v: &V, backend: &str, root: &str, l: &str,
         },
         Err(e) => bad("entry(link)→Err", e.to_string()),
     }
+    // a second symlink() for the same location, under any spelling of the link path: either it is refused and the link
+    // is what it was, or it reports success and then the law holds for the NEW target
+    {
+        let (ldir, base) = (rl(&ld), base_of(l).to_string());
+        let mut spellings = vec![("canonical", rl(l)), ("dot", format!("{}/./{}", ldir, base)), ("dotdot", format!("{}/zz/../{}", ldir, base)), ("dblsep", format!("{}//{}", ldir, base))];
+        if v.set_cwd(&ldir).is_ok() {
+            spellings.push(("cwd-relative", base.clone()));
+            spellings.push(("cwd-relative-dotdot", format!("zz/../{}", base)));
+        }
+        for (sname, sp) in spellings {
+            let was = (v.readlink_abs(rl(l)).map(|p| ps(&p)).ok(), v.readlink(rl(l)).map(|p| ps(&p)).ok());
+            let r = v.symlink(&sp, &other);
+            let now = (v.readlink_abs(rl(l)).map(|p| ps(&p)).ok(), v.readlink(rl(l)).map(|p| ps(&p)).ok());
+            match r {
+                Ok(_) => {
+                    if now.0.as_deref() != Some(other.as_str()) {
+                        bad(&format!("second-symlink({})-Ok-means-new-target→still-the-old-target", sname), format!("symlink({}, {}) = Ok, readlink_abs = {:?}", sp, other, now.0));
+                    }
+                    let _ = v.set_cwd(rl("/"));
+                    return; // the link now is a different one: the remaining steps speak about the first target
+                },
+                Err(_) => {
+                    if now != was {
+                        bad(&format!("second-symlink({})-refused-means-unchanged→changed", sname), format!("{:?} -> {:?}", was, now));
+                    }
+                },
+            }
+        }
+        let _ = v.set_cwd(rl("/"));
+    }
     // non-links
     for (p, what) in [(rl("/zfile"), "file"), (rl(&ld), "dir"), (rl("/nope"), "absent")] {
         if v.readlink(&p).is_ok() || v.readlink_abs(&p).is_ok() {
